@@ -207,6 +207,21 @@ type closeRec struct {
 	waited   bool   // the model called it blocked when it was issued (or after its batch)
 	startLen int    // log length when it was issued
 	probeUs  int
+	// optional: before-close listeners registered on the path of the scope while its Close was
+	// pending. Whether the before-close trigger (which may still be walking levels that had no
+	// listener when its last expected listener ran) picks them up is not fixed: either.
+	optional map[int]bool
+}
+
+// nOptional: optional entries present among the close entries of the scope.
+func (r *closeRec) nOptional(got []entry) int {
+	n := 0
+	for _, en := range got {
+		if en.ev == evBeforeClose && r.optional[en.lid] {
+			n++
+		}
+	}
+	return n
 }
 
 type exec struct {
@@ -251,6 +266,11 @@ func (x *exec) mkListener(id, ev int, fail bool) app.EventCallback {
 func Exec(c Case) hx.Verdict {
 	hx.PersistCurrent("history", c)
 	defer hx.ClearCurrent()
+	if !policy().known {
+		v := hx.Pass()
+		v.Inconclusive = true
+		return v
+	}
 	x := &exec{m: newModel(), log: newLog(), cl: map[int]*closeRec{}, labels: map[string]bool{}, sentinel: map[int]bool{}}
 	x.v = hx.Pass()
 	// root + its probe listeners (one per event, registered first), as in newModel()
@@ -377,6 +397,22 @@ func (x *exec) do(op Op) *hx.Verdict {
 		}
 		if op.Fail && isCloseEv(op.Ev) {
 			x.label("failing-close-listener-registered")
+		}
+		if op.Ev == evBeforeClose {
+			for s2, r := range x.cl {
+				if r == nil || m.sc[s2].closed {
+					continue
+				}
+				for _, a := range m.path(s2) {
+					if a == op.S {
+						if r.optional == nil {
+							r.optional = map[int]bool{}
+						}
+						r.optional[id] = true
+						x.label("before-close-listener-registered-while-close-pending(either)")
+					}
+				}
+			}
 		}
 		return nil
 	case "child":
@@ -742,9 +778,14 @@ func (x *exec) cascade() *hx.Verdict {
 		if had == maybe {
 			x.label("triple-either(orphan-watcher)")
 			// model follows the implementation
-			if len(got) > r.nExp && got[r.nExp].ev == evBeforeRollback {
-				rollback = true
-				m.cx[c].err = yes
+			for _, en := range got {
+				if en.ev != evBeforeClose {
+					if en.ev == evBeforeRollback {
+						rollback = true
+						m.cx[c].err = yes
+					}
+					break
+				}
 			}
 		}
 		post, lerr := m.finishClose(s, rollback)
@@ -758,8 +799,6 @@ func (x *exec) cascade() *hx.Verdict {
 		// order: the first event of the triple comes after the marker of every task of s and after
 		// the last after-close listener of every child of s
 		firstTriple := -1
-		n := 0
-		nBC := len(r.expected[0].ids)
 		lastTask, lastKid, lastKidIdx := -1, -1, -1
 		for i, en := range all {
 			if en.kind == eTask && en.scope == s {
@@ -768,11 +807,8 @@ func (x *exec) cascade() *hx.Verdict {
 			if en.kind != eListener || !isCloseEv(en.ev) {
 				continue
 			}
-			if en.subj == s {
-				if n == nBC && firstTriple < 0 {
-					firstTriple = i
-				}
-				n++
+			if en.subj == s && en.ev != evBeforeClose && firstTriple < 0 {
+				firstTriple = i
 			}
 			if en.ev == evAfterClose && en.subj >= 0 && en.subj != s && m.sc[en.subj].parent == s {
 				lastKid, lastKidIdx = i, en.subj
@@ -828,14 +864,21 @@ func (x *exec) cascade() *hx.Verdict {
 
 func (x *exec) compareEvents(s int, got []entry, r *closeRec, had tri) *hx.Verdict {
 	i := 0
+	skipOptional := func(ev int) {
+		for ev == evBeforeClose && i < len(got) && got[i].ev == ev && r.optional[got[i].lid] {
+			i++
+		}
+	}
 	for _, t := range r.expected {
 		for _, id := range t.ids {
+			skipOptional(t.ev)
 			if i >= len(got) || got[i].ev != t.ev || got[i].lid != id {
 				return x.fail("close-events", "scope %d (error before the triple: %s): listeners saw %s, protocol gives %s",
 					s, had, fmtEntries(got), fmtTrigs(r.expected))
 			}
 			i++
 		}
+		skipOptional(t.ev)
 	}
 	if i != len(got) {
 		return x.fail("close-events", "scope %d (error before the triple: %s): extra events: listeners saw %s, protocol gives %s",
@@ -960,7 +1003,7 @@ func (x *exec) checkNoExtra() *hx.Verdict {
 		got := subjEntries(all, s)
 		want := 0
 		if r != nil {
-			want = r.nExp
+			want = r.nExp + r.nOptional(got)
 		}
 		if r != nil && !x.m.sc[s].closed && len(got) <= want {
 			continue // still waiting; before-close may be under way
